@@ -221,7 +221,7 @@ cpdef int cprNL(double lat):
 
     if abs(lat) <= 1e-08:
         return 59
-    elif abs(abs(lat) - 87) <= 1e-08 + 1e-05 * 87:
+    elif abs(lat) <= 87 and abs(abs(lat) - 87) <= 1e-08 + 1e-05 * 87:
         return 2
     elif lat > 87 or lat < -87:
         return 1
